@@ -171,7 +171,7 @@ def count_lines(path):
     return n
 
 
-RESET_RE = re.compile(r'"op":\s*"(Reset|Pair|ExtractAll)"')   # a script starts with a Reset; a Pair event is a script of its own
+RESET_RE = re.compile(r'"op":\s*"(Reset|Pair|ExtractAll|EditAll)"')   # a script starts with a Reset; a Pair event is a script of its own
 
 
 def shard_scripts(path, nshards, scratch, key="sid"):
@@ -238,7 +238,7 @@ def extract_script(trace, sid, dest, key="sid"):
             except ValueError:
                 continue
             if ev.get(key) == sid:
-                for k in ("res", "ch", "heap", "val", "kind", "err", "equal", "sel", "path", "note", "u", "ix", "ad", "same", "argsame", "copies", "docchanged", "graph", "sib", "desc"):
+                for k in ("res", "ch", "heap", "val", "kind", "err", "equal", "sel", "path", "note", "u", "ix", "ad", "same", "argsame", "copies", "docchanged", "graph", "sib", "desc", "rl", "rm", "rn"):
                     ev.pop(k, None)
                 o.write(json.dumps(ev, ensure_ascii=False, separators=(",", ":")) + "\n")
     return dest
